@@ -117,6 +117,7 @@ type obsItem struct {
 
 type nondetInfo struct {
 	name   string
+	smt    string
 	t      *sym.Term
 	lo, hi int64
 	k      int
@@ -430,14 +431,14 @@ func (e *exec) model() (map[string]int64, map[string]uint64, error) {
 	out := map[string]int64{}
 	full := map[string]uint64{}
 	for _, n := range e.nondets {
-		v, ok := raw[n.name]
+		v, ok := raw[n.smt]
 		if !ok {
 			v = uint64(n.lo)
 			if n.t.Sort == sym.SBV && n.t.W < 64 {
 				v &= uint64(1)<<n.t.W - 1
 			}
 		}
-		full[n.name] = v
+		full[n.smt] = v
 		if n.t.Sort == sym.SBV && n.lo < 0 {
 			// signed interpretation
 			sh := 64 - uint(n.t.W)
